@@ -176,3 +176,37 @@ Proof.
   - repeat constructor; cbn; intuition discriminate.
   - vm_compute. tauto.
 Qed.
+
+(* ---------- match_stereo=True of MoleculeIsomorphism.get_mapping (control flow) ---------- *)
+Lemma all_ok_In {T} : forall (l : list (pyres T)) xs, all_ok l = Ok xs -> forall x, In x xs <-> In (Ok x) l.
+Proof.
+  induction l as [|[y|e] r IH]; intros xs H x; cbn in H; [injection H as <-; tauto | | discriminate].
+  destruct (all_ok r) as [ys|] eqn:E; [|discriminate]. injection H as <-. cbn. rewrite (IH ys eq_refl x). split; intros [H|H]; auto; left; congruence.
+Qed.
+
+(* with the automorphism filter: at most one mapping per found embedding -- the fast mapping, when there is one *)
+Theorem ms_one_filtered : forall (B : Type) (beq : B -> B -> bool) fm cl (bd : list (Z * list (Z * B))),
+  ms_one beq true fm cl bd = Ok (match fm with Some (p :: r) => [p :: r] | _ => [] end).
+Proof. intros B beq [[|p r]|] cl bd; reflexivity. Qed.
+
+(* without it: the fast mapping followed by its composition with every automorphism the model enumerates for the matched
+   substructure (IsoAuto.automorphism_mapping_exact says which those are) *)
+Theorem ms_one_unfiltered : forall (B : Type) (beq : B -> B -> bool) p r cl (bd : list (Z * list (Z * B))) res,
+  ms_one beq false (Some (p :: r)) cl bd = Ok res ->
+  exists autos, get_automorphism_mapping beq cl bd = Ok autos /\
+    forall g, In g res <-> g = p :: r \/ exists a, In a autos /\ compose_fm (p :: r) a = Ok g.
+Proof.
+  intros B beq p r cl bd res H. cbn [ms_one] in H. destruct (get_automorphism_mapping beq cl bd) as [autos|] eqn:Ea; [|discriminate].
+  exists autos. split; [reflexivity|]. destruct (all_ok (map (compose_fm (p :: r)) autos)) as [l|] eqn:El; [|discriminate].
+  injection H as <-. intros g. cbn [In]. rewrite (all_ok_In _ l El g), in_map_iff. split.
+  - intros [E|(a & Ha & Hin)]; [left; congruence | right; eauto].
+  - intros [E|(a & Hin & Ha)]; [left; congruence | right; eauto].
+Qed.
+
+(* composing keeps the pattern atoms (keys) of the fast mapping *)
+Lemma compose_fm_keys : forall fm a g, compose_fm fm a = Ok g -> map fst g = map fst fm.
+Proof.
+  induction fm as [|[n m] r IH]; intros a g H; cbn in H; [injection H as <-; reflexivity|].
+  destruct (zget a m) as [y|]; [|discriminate]. destruct (compose_fm r a) as [l|] eqn:E; [|discriminate].
+  injection H as <-. cbn. f_equal. apply (IH a l E).
+Qed.
